@@ -94,8 +94,13 @@ def generate(check, rng, tier, run_index):
         for c in contexts:
             ops.append({'op': 'context', 'f': f, 'ctx': c, 'seed': rng.below(1 << 30), 'team': rng.choice([1, 1, 2, 3, 5]),
                         'prob': rng.choice(SWITCH), 'sseed': rng.below(1 << 40) + 1})
-    return {'check': check, 'n_frames': n_frames, 'res_lo': res_lo, 'n_res': n_res, 'seed': rng.below(1 << 30),
+    case = {'check': check, 'n_frames': n_frames, 'res_lo': res_lo, 'n_res': n_res, 'seed': rng.below(1 << 30),
             'cell': rng.chance(0.4), 'noise': rng.choice([0.0, 0.01, 0.05]), 'scheds': scheds, 'ops': ops}
+    if rng.chance(0.3):
+        # an incomplete residue inside the fragment (missing backbone C or O, as in many deposited structures):
+        # the per-residue kernels must skip it without borrowing coordinates from anywhere else
+        case['drop_backbone'] = {'res': rng.below(1 << 10), 'atom': rng.choice(['C', 'O', 'N', 'CA'])}
+    return case
 
 
 # ------------------------------------------------------------------ workload
@@ -105,6 +110,10 @@ def make_traj(md, case):
     top = base.topology
     lo = case['res_lo'] % max(1, top.n_residues - case['n_res'])
     sel = [a.index for a in top.atoms if lo <= a.residue.index < lo + case['n_res']]
+    db = case.get('drop_backbone')
+    if db:
+        victim = lo + db['res'] % max(1, case['n_res'] - 1)       # never the last residue of the fragment
+        sel = [i for i in sel if not (top.atom(i).residue.index == victim and top.atom(i).name == db['atom'])]
     r = np.random.RandomState(case['seed'])
     frames = r.choice(base.n_frames, size=case['n_frames'], replace=case['n_frames'] > base.n_frames)
     t = base[frames].atom_slice(sel)
@@ -445,6 +454,10 @@ def shrink_world(check, case):
     if case['cell']:
         c = copy.deepcopy(case)
         c['cell'] = False
+        yield c
+    if case.get('drop_backbone'):
+        c = copy.deepcopy(case)
+        del c['drop_backbone']
         yield c
     if len(case['scheds']) > 1:
         for k in range(len(case['scheds'])):
